@@ -436,6 +436,10 @@ fn exec_file(z: bool, data: &[u8]) -> String {
         }
         Err(e) => errkind(&e),
     };
+    // An uncompressed plaintext that starts with the zstd marker byte 2 is (mis)read as a compressed file: what comes back is
+    // whatever zstd makes of the rest — an error or other bytes.  The model's zstd is abstract, so both outcomes are one
+    // observation (`file_codec_needs_json_start` is the theorem about this corner; repository files always start with `{`/`[`).
+    let rt = if !z && data.first() == Some(&2) && rt != "same" { "marker-collision".to_string() } else { rt };
     // tampered stored bytes are refused
     let mut rng = Rng::new(stored.len() as u64 ^ 0x5eed);
     let mut variants: Vec<Vec<u8>> = Vec::new();
